@@ -1470,7 +1470,7 @@ class C09(core.Check):
         "every child supports the mode (flow / box) its container asks of it (checked against sizing() for every case)",
         "integer columns for move_cursor_to_coords ('left' / 'right' are not modelled); button-1 press events",
         "pack((maxcol,))[0] == maxcol for every modelled widget (Widget.pack default; Text-like widgets with their own pack are oracle-only)",
-        "a Padding rendered with size () 'fits' when its width is 'pack' around a fixed widget or given (>= 1) around a flow widget that fits (width,) (since fix ba33666 all methods hand the child that size; the former witness is a corpus case and Example padding_given_fixed_repaired); a relative width at size () is excluded; every fixed item must fit the width / column it gets",
+        "a Padding rendered with size () 'fits' when its width is 'pack' around a fixed widget or given (>= 1) around a flow widget that fits (width,) (since fix ba33666 all methods hand the child that size, since fix cc624af a press on a margin reaches nobody at size () too; the former witness is a corpus case and Example padding_given_fixed_repaired); a relative width at size () is excluded; every fixed item must fit the width / column it gets",
         "a Pile rendered with size () 'fits' only when all its fixed items are as wide as the Pile: Pile.render(()) does not pad narrower items, the canvas is ragged and, overlaid or joined, is drawn at positions no method computes (reported, corpus/C09/repro_pile_ragged.py); such cases get no correspondence (encode returns None) and are never judged by the oracle",
         "leaf contract: a leaf's get_cursor_coords equals the cursor of its own focused rendering; a cursor implies selectable + cursor API",
         "the bottom widget of an Overlay is background: it never receives mouse events (by design of Overlay.mouse_event)",
@@ -1688,9 +1688,8 @@ class C09(core.Check):
             return ["fleaf", g.nid(), rng.choice([1, 2, 3, 5]), rng.choice([1, 1, 2]), 1 if rng.random() < 0.6 else 0]
         k = rng.choice(["padding", "padding", "attrmap", "pile", "columns", "gpadding"])
         if k == "gpadding":     # a given width makes a Padding around a flow widget a fixed widget (the child gets (width,))
-            # no fixed margins here: Padding.mouse_event(()) has no bounds check, a press on a margin reaches the child
-            # with coordinates outside it (reported; the corpus witness with left=2 is a proposed known finding)
-            return ["padding", g.leaf(False), g.align(), ["given", rng.choice([1, 2, 3, 5])], None, 0, 0]
+            return ["padding", g.leaf(False), g.align(), ["given", rng.choice([1, 2, 3, 5])], None,
+                    rng.choice([0, 1, 2]), rng.choice([0, 1, 2])]
         if k == "padding":
             return ["padding", self.fixed_tree(g, rng, d - 1), g.align(), ["pack"], None, rng.choice([0, 1, 2, 3]), rng.choice([0, 1, 2])]
         if k == "attrmap":
